@@ -7,12 +7,21 @@ facts and emits Gen_Statics.v; its obligation `no_writable_reachable g_facts = t
 is decided inside Coq by the proved checker on every run.
 On an alarm (and always in the thorough tier) harness/thr.c runs N threads of
 deterministic codec scripts under ThreadSanitizer and compares every thread's
-output with its solo run."""
+output with its solo run.
+Dynamic tie of the hypothesis `descr_unchanged` (coq/Conc/Descr.v), every run: lib/c19_util.py
+generates modules covering every constructed kind with several asn1c option sets from
+the working tree and harness/c19drv.c (a) maps the whole writable image of the skeleton +
+generated objects read-only before first use and runs every public operation on every
+type descriptor (any store is reported with pc -> file:line and address -> symbol; the
+image is also compared byte by byte with a snapshot), and (b) runs the same battery from
+N threads released by a barrier before any use of a type, under ThreadSanitizer, each
+thread's log compared with its solo run."""
 import sys, os, re
 sys.path.insert(0, os.path.join(os.path.dirname(os.path.abspath(__file__)), "..", "lib"))
 sys.path.insert(0, os.path.join(os.path.dirname(os.path.abspath(__file__)), "..", "harness"))
 from vlib import *
 import statics
+import c19_util as U
 
 TSAN_ENV = dict(os.environ, TSAN_OPTIONS="exitcode=66:halt_on_error=0:second_deadlock_stack=1")
 
@@ -49,6 +58,99 @@ def run_thr(exe, seed, nthr, nops, timeout=600):
     if rc != 0:
         return "crash", {"rc": rc, "summary": summary}, out[-2500:]
     return "ok", {"summary": summary}, ""
+
+
+def dynamic_part(run, tier, scr):
+    """ties `descr_unchanged`: no operation on any type stores into the writable image of skeleton + generated objects"""
+    dyn = {"variants": {}, "modules": [], "unreached_functions_all_variants": None}
+    known = [(re.compile(f["written_symbol"]), f["id"]) for f in run.findings if f.get("written_symbol")]
+    try:
+        asn1c, skel = build_asn1c()
+        mods = U.modules_for(Rng(run.seed), tier)
+        dyn["modules"] = [m["name"] for m, _, _ in mods]
+        root = os.path.join(scr, "c19dyn")
+        unreached = None
+        for (tag, opts, xc, tiers, skip_rx) in U.VARIANTS:
+            if tier not in tiers:
+                continue
+            v = U.build_variant(asn1c, skel, root, tag, opts, xc, mods, skip_rx)
+            types = U.list_types(v)
+            run.count("dyn:programs(objects in image)", v["nfiles"])
+            for t in types:
+                src = "not-a-pdu" if t["notpdu"] else "random_fill" if not t["nofill"] else "der-seeds" if t["seeds"] else "no-value-source"
+                run.count("dyn:type:" + src)
+                run.case("dyn:%s:%s" % (tag, t["name"]), nontrivial=(src in ("random_fill", "der-seeds")))
+            info = {"options": v["opts"], "types": len(types),
+                    "types_without_value_source": [t["name"] for t in types if t["nofill"] and not t["seeds"] and not t["notpdu"]]}
+            # (a) read-only image
+            ro = U.run_ro(v, run.seed, 4 if tier == "quick" else 12)
+            m = re.search(r"ops=(\d+)", ro["summary"])
+            run.count("dyn:ro:ops", int(m.group(1)) if m else 0)
+            info["ro"] = {"summary": ro["summary"], "segments": ro["segments"], "selftest": ro["selftest"], "crashes_recovered": ro["crashes"][:10],
+                          "functions_entered": ro["funcs_seen"], "functions_in_image": ro["funcs_all"]}
+            unreached = set(ro["funcs_unreached"]) if unreached is None else (unreached & set(ro["funcs_unreached"]))
+            if not ro["summary"] or ro["rc"] not in (0, 4):
+                run.violation("ro-image:driver(%s)" % tag, {"what": "c19drv ro did not complete", "rc": ro["rc"], "tail": ro["raw_tail"]}, no_input=True)
+            elif not ro["selftest_ok"]:
+                run.violation("ro-image:selftest(%s)" % tag, {"what": "the read-only-image detector did not report the three canary stores "
+                                                                        "(c19_canary.c) exactly: it cannot be trusted on this platform", "seen": ro["selftest"]}, no_input=True)
+            run.count("dyn:ro:crash-recovered(not C19)", len(ro["crashes"]))
+            by_sym = {}
+            for e in ro["stores"]:
+                by_sym.setdefault(e["symbol"], {"stores": [], "diffs": []})["stores"].append(e)
+            for e in ro["diffs"]:
+                by_sym.setdefault(e["symbol"], {"stores": [], "diffs": []})["diffs"].append(e)
+            for sym, ev in sorted(by_sym.items()):
+                fid = next((i for (rx, i) in known if rx.search(sym)), None)
+                if fid:
+                    run.known_finding(fid, sym)
+                    continue
+                first = ev["stores"][0] if ev["stores"] else None
+                run.violation("ro-image:%s(%s)" % (tag, sym),
+                              {"what": "a library operation stored into the shared image of skeleton + generated objects (supposed immutable after load): "
+                                       "%s, %d distinct store site/address pairs, %d changed byte ranges" % (sym, len(ev["stores"]), len(ev["diffs"])),
+                               "hypothesis": "descr_unchanged (coq/Conc/Descr.v) is false of this build", "symbol": sym,
+                               "store_instruction_at": first and first["store_at"], "during": first and "%s on type %s" % (first["first_during"], first["type"]),
+                               "stores": ev["stores"][:8], "changed": ev["diffs"][:8], "asn1c_options": v["opts"],
+                               "replay_cmd": "lib/c19_util.build_variant(...'%s'...); <variant>/ro/c19drv ro %d %d" % (tag, run.seed, 4 if tier == "quick" else 12)})
+            # (b) threads behind a barrier, ThreadSanitizer
+            rounds = [(run.seed, 4, 2)] if tier == "quick" else [(run.seed + k, 2 + 2 * (k % 4), 3) for k in range(4)]
+            info["thr"] = []
+            for (sd, nthr, iters) in rounds:
+                verdict, summ, report = U.run_thr(v, sd, nthr, iters)
+                if verdict == "crash":
+                    solo_bad = U.solo_crashes(v, sd, nthr, iters)
+                    if solo_bad:   # the script dies when run alone as well: a crash of the code under test, not a concurrency effect
+                        verdict = "crash-also-solo(not C19)"
+                        summ["solo_threads_crashing"] = solo_bad
+                run.count("dyn:thr:" + verdict)
+                m = re.search(r"ops=(\d+)", " ".join(summ.get("summary", [])))
+                run.count("dyn:thr:ops", int(m.group(1)) if m else 0)
+                info["thr"].append({"seed": sd, "threads": nthr, "iters": iters, "verdict": verdict, "detail": summ})
+                if verdict in ("race", "diff", "crash"):
+                    syms = summ.get("globals") or []
+                    fids = [next((i for (rx, i) in known if rx.search(g)), None) for g in syms]
+                    if verdict == "race" and syms and all(fids):
+                        for fid, g in zip(fids, syms):
+                            run.known_finding(fid, g)
+                        continue
+                    run.violation("thr-battery:%s(%s)" % (verdict, tag),
+                                  {"what": {"race": "ThreadSanitizer reports a data race while threads run the operation battery on their own values",
+                                            "diff": "a thread's results differ from the same script run alone",
+                                            "crash": "the concurrent phase dies although every script completes when run alone"}[verdict],
+                                   "thr": summ, "tsan_report": report, "asn1c_options": v["opts"],
+                                   "replay_cmd": "<variant>/th/c19drv thr %d %d %d (TSAN_OPTIONS=suppressions=harness/c19_tsan.supp)" % (sd, nthr, iters)})
+                    break
+            dyn["variants"][tag] = info
+        dyn["unreached_functions_all_variants"] = sorted(unreached or [])
+        run.count("dyn:functions-never-entered", len(unreached or []))
+        if len(run.cov["samples"]) < 11:
+            k = sorted(dyn["variants"])[0] if dyn["variants"] else None
+            if k:
+                run.sample({"dynamic": k, "ro": dyn["variants"][k]["ro"]["summary"], "thr": dyn["variants"][k]["thr"][:1]})
+    except BuildError as e:
+        run.violation("build:dynamic", {"what": str(e)[-2500:]}, no_input=True)
+    return dyn
 
 
 def main(tier):
@@ -163,6 +265,9 @@ def main(tier):
         if rc2 != 0:
             run.violation("proof:coqchk", {"what": "coqchk rejects the compiled development", "tail": o2[-1500:]}, no_input=True)
 
+    # 2c. dynamic: read-only image + TSan battery over every type of generated modules
+    dyn = dynamic_part(run, tier, scr)
+
     # 3. on an alarm: search for a concrete demonstration; thorough: run it anyway
     thr_result = None
     if bad or not gen_ok or tier == "thorough":
@@ -216,11 +321,25 @@ def main(tier):
                    "other_code_shapes": variants, "coqchk_axioms": coqchk_axioms,
                    "stale_allowlist_entries": ["%s:%s" % (e["file"], e["symbol"]) for e in stale],
                    "entry_exclusions": sorted(set(w for _, w in res["excluded_entries"])),
+                   "dynamic": dyn,
+                   "limits": [
+                       "descr_unchanged is tied by testing, not proved: the read-only image detector sees every store executed by the battery "
+                       "(all types of %s under the listed asn1c option sets, valid + damaged inputs); a store on a path the battery does not "
+                       "execute is not seen - `unreached_functions_all_variants` lists the library functions never entered" % ", ".join(dyn.get("modules") or []),
+                       "not exercised: failing output callbacks (unchanged library asserts: C07), OER encoding of values that fail their own constraint check "
+                       "(BIT_STRING_encode_oer padding loop never terminates: C07), compare with a NULL operand (BIT_STRING_compare crashes), ber_tlv_tag_string / asn_bit_data_string "
+                       "(documented static-buffer debug helpers), -DASN_DEBUG builds",
+                       "random() is replaced by a thread-local generator in the harness: asn_random_fill's use of libc's shared random state is outside the property",
+                       "TSan suppressions (harness/c19_tsan.supp): glibc's tz state behind its internal tzset_lock, reached through mktime()"],
                    "notes": run.notes},
         trusted_base=["Coq 8.16.1 kernel + vm_compute", "harness/statics.py (readelf/objdump parsing, store/load classification)",
                       "binutils readelf/objdump, gcc -O1 code generation", "harness/statics_allow.json (hand review of address-taken tables and libc externals)",
                       "footprint assumption of C19_statics_imply_irrelevant (writes reach static objects only through relocated stores or escaped addresses)",
-                      "harness/thr.c + ThreadSanitizer (supporting evidence only)"],
+                      "harness/thr.c + ThreadSanitizer (supporting evidence only)",
+                      "hypothesis descr_unchanged of C19_descr_invariant / C19_statics_and_descr_imply_irrelevant (no call stores into the type tables): "
+                      "tied dynamically by harness/c19drv.c (mprotect read-only image + SIGSEGV single-step logger + snapshot compare, self-tested by "
+                      "three canary stores every run; Linux x86-64, dl_iterate_phdr, GNU ld RELRO layout) and by the TSan battery of the same driver",
+                      "lib/c19_util.py hand-made modules C19K/C19X + one modgen module: the set of type shapes the tie quantifies over"],
         checker_cmd="coqc -Q coq A1 <scratch>/Gen_Statics.v",
         assumptions=["axioms printed: %s" % (sorted(axioms) or "none (Closed under the global context)"),
                      "x86-64 LP64, gcc default PIE code model; glibc MT-safety of the externals listed in statics_allow.json",
